@@ -3,7 +3,7 @@ package main
 func init() {
 	register(&PropSpec{
 		ID: "C10",
-		Explain: "Decides the default table for every default-bearing optional column, for both ways a value can be missing: OptionalColumn.Read/ReadOr are summarised from their CFG as {column absent, cell blank, value} -> {default argument, cell, \"\"}; for each read of a default-bearing column the cell handed on is composed with the consumer (direct field store, `== const`, or the decoder's extracted decision table) and the resulting field constant is compared with the GTFS default (DESIGN Appendix A.2), for 'absent' and for 'blank'. " +
+		Explain: "Decides the default table for every default-bearing optional column, for both ways a value can be missing: OptionalColumn.Read/ReadOr are summarised from their CFG as {column absent, cell blank, value} -> {default argument, cell, \"\"}; for each read of a default-bearing column the cell handed on is composed with the consumer (direct field store, `== const`, or the decoder's extracted decision table) and the resulting field constant is compared with the GTFS default (DESIGN Appendix A.2), for 'absent' and for 'blank'. A decode that runs only under a test of its own column object that is false for an absent column is evaluated as skipped for 'absent': the field then keeps the zero value of its type, which must be the default. " +
 			"Fill-in: under each validity combination of (arrival, departure) the value stored in ArrivalTime/DepartureTime must come from a valid side. Inheritance: stores under the option touch only WheelchairBoarding, guarded by parent present and own value unspecified, and store the parent's value. " +
 			"The inheriting store is reached on every path on which option, parent and own Unspecified hold (no further condition restricts it). Not decided: that the decoders are applied to every row (C01), numeric parsing.",
 		Rules: []Rule{
